@@ -165,7 +165,15 @@ impl ValueRef {
         match value {
             Value::Null => ValueRef::Null,
             Value::Int(number) => ValueRef::Int(number),
-            Value::Str(string) => ValueRef::Str(string_pool.incref(string)),
+            Value::Str(string) => {
+                // The file format has a single representation (a zero
+                // string reference) for both null and the empty string.
+                if string.is_empty() {
+                    ValueRef::Null
+                } else {
+                    ValueRef::Str(string_pool.incref(string))
+                }
+            }
         }
     }
 
